@@ -9,6 +9,9 @@ theorem staleCmp_is_lt : staleCmp = .lt := by decide
 theorem missingCheck_on : missingCheck = true := by decide
 theorem magicRecheck_on : magicRecheck = true := by decide
 theorem fileRecheck_on : fileRecheck = true := by decide
+theorem fileCmpNormalised_on : fileCmpNormalised = true := by decide
+@[simp] theorem namesDiffer_eq (a b : Nat) : namesDiffer a b = (normOf a != normOf b) := by
+  simp [namesDiffer, fileCmpNormalised_on]
 theorem recordsFilenameVerbatim_on : recordsFilenameVerbatim = true := by decide
 @[simp] theorem recordedName_eq (n : Nat) : recordedName n = n := by simp [recordedName, recordsFilenameVerbatim_on]
 theorem hookArgs_ok : hookArgsOk = true := by decide
@@ -265,13 +268,13 @@ theorem loadMod_fresh (w : World) (f : File) (hf : w.fs .mod = some f) (hc : f.c
 
 theorem phase2_reuse (wr : Writer) (w1 : World) (p : Plan) (left : Option Nat) (acts : List Act) (n : Nat)
     (calls : List (Content × P)) (c : Content) (pyc1 : Option (Nat × Nat × Content))
-    (hl : loadMod w1 = (some c, pyc1)) (hm : c.magic = magicNumber) (hfile : c.file = w1.fileId) :
+    (hl : loadMod w1 = (some c, pyc1)) (hm : c.magic = magicNumber) (hfile : normOf c.file = normOf w1.fileId) :
     phase2 wr w1 p left acts n calls = ⟨{ w1 with pyc := pyc1 }, .served c, acts, n, calls⟩ := by
   simp [phase2, hl, needsRegen, hm, hfile]
 
 theorem phase2_rewrite (wr : Writer) (w1 : World) (p : Plan) (left : Option Nat) (acts : List Act) (n : Nat)
     (calls : List (Content × P)) (c c2 : Content) (pyc1 pyc2 : Option (Nat × Nat × Content))
-    (hl : loadMod w1 = (some c, pyc1)) (hm : c.magic ≠ magicNumber ∨ c.file ≠ w1.fileId)
+    (hl : loadMod w1 = (some c, pyc1)) (hm : c.magic ≠ magicNumber ∨ normOf c.file ≠ normOf w1.fileId)
     (hd : (wr { w1 with pyc := pyc1 } (newContent { w1 with pyc := pyc1 } p.size2) p.fates2 left).status = .done)
     (hl2 : loadMod (afterGroup { w1 with pyc := pyc1 }
       (wr { w1 with pyc := pyc1 } (newContent { w1 with pyc := pyc1 } p.size2) p.fates2 left)) = (some c2, pyc2)) :
@@ -339,7 +342,7 @@ theorem construct_due (w : World) (p : Plan) (hp : p.noFault) (hfresh : dropsByt
 /-- case B: fresh file, right magic number: reused, nothing is touched -/
 theorem construct_reuse (w : World) (p : Plan) (hgood : Good w.fs) (hcoh : PycCoherent w)
     (hd : isDue w = false) (f : File) (hf : w.fs .mod = some f) (hm : f.content.magic = magicNumber)
-    (hfile : f.content.file = w.fileId) :
+    (hfile : normOf f.content.file = normOf w.fileId) :
     (construct defaultWriter w p).writes = 0 ∧
     (construct defaultWriter w p).res = .served f.content ∧
     (construct defaultWriter w p).world.fs = w.fs ∧
@@ -353,7 +356,7 @@ theorem construct_reuse (w : World) (p : Plan) (hgood : Good w.fs) (hcoh : PycCo
 /-- case C: fresh file, other magic number: rewritten after the first load, and loaded again -/
 theorem construct_magic (w : World) (p : Plan) (hp : p.noFault) (hgood : Good w.fs) (hcoh : PycCoherent w)
     (hfresh : dropsBytecode = true ∨ PycFresh w p) (hd : isDue w = false) (f : File) (hf : w.fs .mod = some f)
-    (hm : f.content.magic ≠ magicNumber ∨ f.content.file ≠ w.fileId) :
+    (hm : f.content.magic ≠ magicNumber ∨ normOf f.content.file ≠ normOf w.fileId) :
     (construct defaultWriter w p).writes = 1 ∧
     (construct defaultWriter w p).res = .served (newContent w p.size2) ∧
     (construct defaultWriter w p).world.fs .mod = some ⟨newContent w p.size2, w.clock⟩ := by
